@@ -2,9 +2,16 @@
 From DG Require Import Base.Util Base.Sexp Base.Reach Model.Graph Model.Walk Model.RunC15 Model.RunC02
   Model.RunC14 Model.Prune Model.RunC17 Model.Builder.
 
+(* per-dependency flags: a bare boolean (is_asset, no source-phase referrer) or [is_asset; referrer option] *)
+Definition dec_dflags (s : sexp) : option dflags :=
+  match s with
+  | L [a; sp] => do a' <- as_bool a; do sp' <- as_option as_atom sp; Some {| dfl_asset := a'; dfl_sp := sp' |}
+  | _ => do a' <- as_bool s; Some {| dfl_asset := a'; dfl_sp := None |}
+  end.
+
 Definition dec_wmod (hr ht : N) (media parse_ok mk deps tdep : sexp) : option wmod :=
   do media' <- dec_media media; do ok <- as_bool parse_ok; do mk' <- dec_mkind mk;
-  do deps' <- as_list_of (as_pair dec_dep as_bool) deps;
+  do deps' <- as_list_of (as_pair dec_dep dec_dflags) deps;
   do tdep' <- as_option dec_typesdep tdep;
   Some {| wm_hash_raw := hr; wm_hash_text := ht; wm_media := media'; wm_parse_ok := ok; wm_kind := mk';
           wm_deps := deps'; wm_tdep := tdep' |}.
